@@ -15,11 +15,19 @@
 #include <string>
 #include <vector>
 #include "rkcommon/math/vec.h"
+// fallback builds: -DC09_NO_ANY / -DC09_NO_ENV leave out the part that uses Any.h / getEnvVar.h, so that the Optional
+// histories still run (judged by the oracle) when one of those headers no longer compiles against the harness
+#ifndef C09_NO_ANY
 #include "rkcommon/utility/Any.h"
+#endif
 #include "rkcommon/utility/Optional.h"
+#ifndef C09_NO_ENV
 #include "rkcommon/utility/getEnvVar.h"
+#endif
 
+#ifndef C09_NO_ANY
 using rkcommon::utility::Any;
+#endif
 using rkcommon::utility::Optional;
 using rkcommon::math::vec3f;
 
@@ -471,6 +479,7 @@ template <typename F> struct EnvGet {
   static std::string render(long) { return std::string(); }
   static int go(int, const std::string &) { return 0; }
 };
+#ifndef C09_NO_ENV
 template <> struct EnvGet<FamInt> {
   static const int kind = 0;
   static std::string render(long sid)      // atoi(render(sid)) == 4 * sid, through blanks, a sign, trailing junk
@@ -500,6 +509,7 @@ template <> struct EnvGet<FamDbl> {
   }
   static int go(int i, const std::string &n) { new (addr<float>(i)) Optional<float>(rkcommon::utility::getEnvVar<float>(n)); return 2; }
 };
+#endif
 
 template <typename A, typename B> static bool docmp(const std::string &c, const Optional<A> &a, const Optional<B> &b)
 {
@@ -927,6 +937,7 @@ struct RunMov {
 };
 
 // ------------------------------------------------------------------ Any histories
+#ifndef C09_NO_ANY
 struct NoEq { Trk<2> t; };                 // a payload type without operator==
 typedef Trk<3> ATrk;
 // payload types whose operator== is coarser than identity (or not reflexive):
@@ -1125,6 +1136,8 @@ static std::string any_history(const std::vector<std::string> &ops)
   return line;
 }
 
+#endif  // C09_NO_ANY
+
 template <typename F> static void facts()
 {
   typedef typename F::T T;
@@ -1168,7 +1181,10 @@ int main(int argc, char **argv)
       else if (mode == "ks") r = Run<FamKS>::history(ops);
       else if (mode == "dbl") r = Run<FamDbl>::history(ops);
       else r = Run<FamInt>::history(ops);
-    } else if (kind == "A") r = any_history(ops);
+    }
+#ifndef C09_NO_ANY
+    else if (kind == "A") r = any_history(ops);
+#endif
     std::cout << r << std::endl;
   }
   return 0;
